@@ -207,6 +207,8 @@ pub fn finish(ctx: &Ctx, mut rep: Report) -> i32 {
         }
     }
     let dir = PathBuf::from(format!("{}/replays/{}", VERIF_ROOT, ctx.prop));
+    // replay files describe this run only
+    let _ = std::fs::remove_dir_all(&dir);
     let mut printed = 0usize;
     let mut replay_paths = vec![];
     // group fresh violations by class so that one root cause gives few lines
